@@ -12,7 +12,8 @@ def plan(tier, seed):
   # thorough = the quick workload of the seed families seed .. seed+3 (see props/C01.py for why).
   fams = [seed] if tier == 'quick' else [seed, seed + 1, seed + 2, seed + 3]
   return [{'witness': 'trigger_on_error_cells'}, {'witness': 'self_lookup_cycle'}] + \
-         [{'hseed': f * 100003 + 7000 + i, 'steps': 40} for f in fams for i in range(16)]
+         [{'hseed': f * 100003 + 7000 + i, 'steps': 40} for f in fams for i in range(16)] + \
+         [{'hseed': f * 100003 + 57000 + i, 'steps': 40, 'stream': 'B'} for f in fams for i in range(8)]
 
 
 def witness_trigger_on_error_cells(acc):
@@ -53,5 +54,11 @@ def run_shard(spec, acc):
     return globals()['witness_' + spec['witness']](acc)
   from props import C01
   mon = histories.UndoRedoMonitor(check_undo=False, check_redo=True, final_unwind=False, classify=C01.classify)
-  h = histories.History(acc, spec['hseed'], [mon], spec['steps'])
+  if spec.get('stream') == 'B':
+    h = histories.History(acc, spec['hseed'], [mon], spec['steps'], weights=C01.WEIGHTS_B, flags=C01.FLAGS_B)
+    acc.count('stream_B_histories')
+  else:
+    h = histories.History(acc, spec['hseed'], [mon], spec['steps'])
   h.run()
+  for k, v in getattr(h.gen, 'pattern_counts', {}).items():
+    acc.count('pattern.' + k, v)
